@@ -22,7 +22,7 @@ BUDGET = {"quick": 420, "thorough": 2400}
 
 def bounds(tier):
     if tier == "quick":
-        return ("num_jobs in {1,2,3,(1,2),(2,3)}, num_machines in {1,2,3,(1,2),(2,3)} with jobs x machines <= 6 (<= 4 with recirculation or "
+        return ("num_jobs in {1,2,3,(1,2),(2,3)}, num_machines in {1,2,3,(1,2),(2,3)} with jobs x machines <= 9 (<= 4 with recirculation or "
                 "flexible machines); machines_per_operation in {1,2,(1,2)}; both flags both ways; duration range (1,99) symbolic; 2 instances per "
                 "generator; iteration_limit 2; explicit generate(num_jobs, num_machines) arguments; every RNG outcome")
     return "quick with jobs x machines <= 9 (<= 6 with recirculation / flexible), 3 instances per generator, iteration_limit 3"
@@ -38,7 +38,7 @@ def _minv(x):
 
 def subspaces(tier):
     out = []
-    cap, cap2 = (6, 4) if tier == "quick" else (9, 6)
+    cap, cap2 = (9, 4) if tier == "quick" else (9, 6)
     sizes = [1, 2, 3, [1, 2], [2, 3]]
     for nj in sizes:
         for nm in sizes:
